@@ -987,9 +987,24 @@ def c08_cli_faults(c):
                 res.append(("stdout_device_full", True) + run(cmd, fin, full))
             r, w = os.pipe()
             os.close(r)
+            # The pipe is only broken once NO process holds its read end. Another thread of this driver may have
+            # forked a child between pipe() and close(r); until that child has exec'ed it holds a copy, and writes
+            # succeed. Wait until a write really fails before using the pipe (seen once in 600 cases on a loaded
+            # machine: all five lines of a program went into the pipe and no error was due).
+            broken = False
+            for _ in range(500):
+                try:
+                    os.write(w, b"x")
+                except BrokenPipeError:
+                    broken = True
+                    break
+                except OSError:
+                    break
+                time.sleep(0.01)
             with open(stdin_path, "rb") as fin:
                 try:
-                    res.append(("stdout_closed_pipe", True) + run(cmd, fin, w))
+                    if broken:
+                        res.append(("stdout_closed_pipe", True) + run(cmd, fin, w))
                 finally:
                     os.close(w)
         if info["reads"] > 0:
